@@ -168,6 +168,8 @@ func run(c *lib.Ctx) {
 	// every handler has returned after StopWait: the error logs are complete
 	lib.StopWait(inst)
 	w.checkStderr()
+	earlyAnswers(c, w.root)
+	c.Floor("early_answers_compared", 10)
 
 	hitFloor := int64(total * 6 / 10)
 	c.Floor("responder_hits", hitFloor)
